@@ -72,6 +72,11 @@ def gen_cases(tier, seed):
         plist += [Q(['reincarnate'], ['kill', 'k']), Q(['pause', 'p'], ['reincarnate'], ['kill', 'k']), Q(['reincarnate'], ['pause', 'p'], ['kill', 'k']),
                   Q(['reincarnate'], ['cancel_future']), [{'at': 1, 'act': ['pause', 'p']}] + Q(['reincarnate'], ['kill', 'k']),
                   Q(['reincarnate'], ['reincarnate'], ['kill', 'k']), Q(['reincarnate'], ['soon_kill', 'wd'])]
+        # ... recreated from a checkpoint written by whoever gave up stepping the paused process (the stepping task cancelled, the
+        # cancellation not delivered yet): as killable as any other paused process
+        for s0 in range(0, n + 1, 2):
+            plist.append([{'at': s0, 'act': ['pause', 'p']}, {'at': 'q', 'act': ['abort_task']}, {'at': 'q+', 'act': ['reincarnate']}, {'at': 'q', 'act': ['kill', 'k']}])
+            plist.append([{'at': s0, 'act': ['pause', 'p']}, {'at': 'q', 'act': ['abort_task']}, {'at': 'q+', 'act': ['reincarnate']}, {'at': 'q+', 'act': ['kill', 'k']}])
         # the kill is requested by code whose current event loop is another one than the process's (a synchronous driver acting between two
         # slices of the loop): at the first quiescent points, and before the first step
         for j, fplan in enumerate([Q(['kill', 'k']), Q(['pause', 'p'], ['kill', 'k']), [{'at': 0, 'act': ['kill', 'k']}], [{'at': 0, 'act': ['pause', 'p']}] + Q(['kill', 'k'])]):
